@@ -405,7 +405,7 @@ def work(task):
                 fail(f"pushback get_row/set_row[{y}]", "pushback", m2.matrix(), got, "pushback-differs")
         except Exception as e:
             fail(f"pushback get_row/set_row[{y}]", "pushback-raises", None, type(e).__name__, f"raises:{type(e).__name__}")
-    return (sidx, hist, nev, nobj, fails, len(nontrivial))
+    return (sidx, hist, nev, nobj, report.compact(fails), len(nontrivial))
 
 
 def states_for(tm, tier):
@@ -452,6 +452,8 @@ def run(prop, tier, vseed):
             nobj += b
             ntv = max(ntv, nt)
             failures.extend(fails)
+            if len(failures) > 5000:
+                failures = report.compact(failures)
     cov = {
         "states": len(tasks),
         "transitions": nev,
